@@ -5,7 +5,7 @@ execution of the real code contradicts the property as stated AND the saved repl
 re-fails once.  Tool failures exit 2.  Known findings (known_findings.json) are
 printed as KNOWN-FINDING and do not fail the check.
 """
-import json, os, re, subprocess, sys, time, hashlib, shutil, random
+import json, os, re, subprocess, sys, time, hashlib, shutil, random, tempfile
 
 ROOT = '/verif'
 REPO = os.environ.get('VERIF_REPO', '/repo')
@@ -84,8 +84,10 @@ class TlcResult:
 def tlc(module, cfg, workers=8, simulate=None, depth=None, timeout=600, coverage=False,
         env=None, heap='8g', extra=None, keep_out=False):
     """Run TLC on SPEC/module.tla with SPEC/cfg.  simulate=N -> -simulate num=N."""
-    meta = '%s/tlc/%s.%d.%d' % (BUILD, module, os.getpid(), int(time.time() * 1000) % 100000)
-    os.makedirs(meta, exist_ok=True)
+    # mkdtemp: unique even when tlc_many starts two jobs of one module in the same millisecond
+    # (a shared metadir is removed by whichever run finishes first -> "Unable to open ..._0.fp")
+    os.makedirs(BUILD + '/tlc', exist_ok=True)
+    meta = tempfile.mkdtemp(prefix='%s.%d.' % (module, os.getpid()), dir=BUILD + '/tlc')
     cmd = ['java', '-Xss64m', '-Xmx' + heap, '-XX:+UseParallelGC', '-cp',
            TLC_JAR + ':/opt/veriftools/tla/CommunityModules-deps.jar', 'tlc2.TLC']
     cmd = ['tlc']
@@ -101,6 +103,10 @@ def tlc(module, cfg, workers=8, simulate=None, depth=None, timeout=600, coverage
         cmd += ['-coverage', '1']
     if extra:
         cmd += extra
+    if '-noGenerateSpecTE' not in cmd:
+        # nothing reads the <module>_TTrace_<epoch-seconds> files; concurrent refuted runs of one
+        # module would write the same file name into SPEC
+        cmd += ['-noGenerateSpecTE']
     cmd += [module + '.tla']
     r = TlcResult()
     try:
